@@ -123,7 +123,10 @@ theorem fiter_switch_drops_cache {σ α : Type} (I : It σ α) (b : Bool) (f : F
 /-- **The code's operator tables are the ones the model is written against** (regenerated from
 `pkg/lql/whereeval.go` on every run): which comparison each `case` of `buildTsCond`, `buildMsgCond`, `buildFldCond`
 and which mapping each function of `buildMsgLeStrFldF` performs, and that the LIKE pre-test assigns the builder's
-error (the repair of the malformed-pattern defect). -/
+error (the repair of the malformed-pattern defect), and for the fiterator that `Next`/`SetBackward` drop the cache, that
+`fltF && range` decides `valid`, and that the range check has both bounds inclusive. The facts are read structurally
+(any loop form, hoisted locals and no-op conversions looked through, same-file helpers followed), so that a
+behaviour-preserving refactoring does not change them. -/
 theorem code_tables_as_modelled :
     Generated.C05.tsTable = [(sLT, "subj<val"), (sGT, "subj>val"), (sLE, "subj<=val"), (sGE, "subj>=val")] ∧
     Generated.C05.msgTable = [(sCONTAINS, "Contains(subj,val)"), (sPREFIX, "HasPrefix(subj,val)"),
@@ -136,7 +139,8 @@ theorem code_tables_as_modelled :
     Generated.C05.operandClassifiedBy = "ToLower" ∧
     Generated.C05.likeTestAssignsErrMsg = true ∧ Generated.C05.likeTestAssignsErrFld = true ∧
     Generated.C05.fiterNextResetsValid = true ∧ Generated.C05.fiterSetBackwardResetsValid = true ∧
-    Generated.C05.fiterValidIsFltAndRange = true := by decide
+    Generated.C05.fiterValidIsFltAndRange = true ∧
+    Generated.C05.fiterRangeCheck = "Timestamp>=MinTs&&Timestamp<=MaxTs" := by decide
 
 
 /-! ### the parser in front of the evaluator (C12's direct recursive-descent parser `Lql.dExpr`, token level) -/
